@@ -44,6 +44,17 @@ def generate(chk, prop, tier, seed):
                     b["fam"] = "variant-sweep"
                     behs.append(b)
     if prop == "C11":
+        cfg = "Perturb_c11j_%s.cfg" % ("quick" if tier == "quick" else "thorough")
+        r = tlc.run("MCPerturb.tla", cfg, timeout=6000)
+        if not r.ok():
+            raise MachineryError("TLC failed on %s: %s %s" % (cfg, r.invariant_violated, r.error))
+        chk.add_tlc(r)
+        chk.cov["tlc_runs"].append({"cfg": cfg, "generated": r.generated, "distinct": r.distinct, "behaviours": len(r.beh), "wall_s": r.wall_s})
+        for b in r.beh:
+            if any(e["t"] == "join" and e["a"] > 0 for e in b["ed"]):
+                b["fam"] = "exh-joined"
+                behs.append(b)
+    if prop == "C11":
         cfg = "Perturb_c11s_%s.cfg" % ("quick" if tier == "quick" else "thorough")
         r = tlc.run("MCPerturb.tla", cfg, timeout=6000)
         if not r.ok():
@@ -359,7 +370,12 @@ def events_for(prop, case, res, D, ctr):
                 exp_dirs.append(tuple(pst[idx - 1]))
             else:
                 e = case["ed"][idx - 1]
-                if e["t"] == "cmt":
+                if e["t"] == "join":
+                    # the trailing comment behind two statements joined by ';'
+                    txt = perturb.CMT[e["a"]]
+                    exp_keep.append(("c", txt))
+                    exp_dirs.append(("cd" if e["a"] in (6, 7) else "c", txt))
+                elif e["t"] == "cmt":
                     txt = perturb.CMT[e["b"]]
                     exp_keep.append(("c", txt))
                     # a full-line directive-form comment becomes a Directive; the code deliberately keeps
